@@ -358,6 +358,32 @@ def history_case(h, k):
     return c
 
 
+def deep_cases(rng):
+    """deep molecules: 255 / 256 / 257 / 300 / 520 fragments supporting one base at every C/G position plus 1-3
+    dissenting fragments (per-position fragment counts beyond 8 and 9 bits; the model counts in unbounded Z)"""
+    out = []
+    for k, n in enumerate((255, 256, 257, 300, 520)):
+        for variant in (0, 1):
+            ref = rng.choice(['ACGTCAGCCA', 'TTCGACTGGCATG', 'GACGCCTGAACG', 'CCGGCAGTCGA'])
+            L = len(ref)
+            r1rev = (k + variant) % 2 == 1
+            ts = rng.choice(['F', 'R'])
+            base = ('G' if r1rev else 'C') if ts == 'F' else ('C' if r1rev else 'G')
+            conv = 'T' if base == 'C' else 'A'
+            majority_converted = variant == 0
+            def pair(converted):
+                seq = ''.join(conv if (c == base and converted) else c for c in ref)
+                rd = lambda rev: {'start': 0, 'cigar': [[0, L]], 'seq': seq, 'qual': [30] * L, 'rev': rev, 'md': True}
+                return [rd(r1rev), rd(not r1rev)]
+            d = rng.randint(1, 3)
+            frags = [pair(majority_converted) for _ in range(n)] + [pair(not majority_converted) for _ in range(d)]
+            rng.shuffle(frags)
+            out.append({'ref': ref, 'refkind': rng.choice(['pysam', 'cachednh']), 'klass': 'chic', 'taps_strand': ts,
+                        'unsafe': False, 'invert': False, 'kw': None, 'frags': frags, 'meth': [], 'conv': base,
+                        'force': True, 'deep': [n, d]})
+    return out
+
+
 def exhaustive_small_cases(alphabet='ACGTN', n=3):
     """every reference of length n over the alphabet x R1 orientation x taps_strand x (unconverted | fully
     converted), covered end to end by one mate pair: every context at both contig ends"""
@@ -574,6 +600,8 @@ class Prop(fw.PropBase):
         'phred, MD reference base) list) is computed by tools/impl_c14.py with pysam from the objects the molecule holds',
         'tools/c14.py ast_tables + reflection dump of TAPS().context_mapping generate coq/Gen/GenTaps.v (both must agree)',
         'qual (mean phred, a float), XR/XG and YC tags are outside the property and not compared',
+        'fragment counts per position are unbounded integers (Z) in the model; the implementation accumulates them in a '
+        'numpy vector (float64 on HEAD) -- watched by K with molecules of 255..523 fragments, not proved for the dtype',
     ]
     ASSUMPTIONS = [
         'fragments hold [R1, R2] (either may be None), mapped reads with ACGTN query bases, all reads of one molecule on one '
@@ -602,6 +630,9 @@ class Prop(fw.PropBase):
             ex += exhaustive_small_cases('ACGTN', 4) + exhaustive_small_cases('ACGT', 5)
         cases += ex
         self.n_exhaustive = len(ex)
+        dc = deep_cases(self.rng)
+        cases += dc
+        self.n_deep = len(dc)
         n = 2000 if quick else 60000
         for _ in range(n):
             cases.append(gen_case(self.rng))
@@ -696,7 +727,7 @@ class Prop(fw.PropBase):
             hist['taps_strand=' + str(r['taps_strand_used'])] += 1
             hist['strand=' + str(r['strand'])] += 1
             hist['unsafe' if c['unsafe'] else 'dove_safe'] += 1
-            hist['fragments=%d' % r['n_frags']] += 1
+            hist['fragments=%d' % r['n_frags'] if r['n_frags'] <= 8 else 'fragments>=255' if r['n_frags'] >= 255 else 'fragments=9..254'] += 1
             hist['ref_has_N'] += 'N' in c['ref'].upper()
             hist['ref_lowercase'] += c['ref'] != c['ref'].upper()
             if o == [-1]:
@@ -743,7 +774,7 @@ class Prop(fw.PropBase):
         self.cov.update({
             'evaluations': len(cases),
             'distinct_nontrivial': len(nontrivial),
-            'rule': 'HISTORIES ON ONE MOLECULE OBJECT (constructor, growth by add_fragment / add_molecule / _add_fragment, '
+            'rule': 'DEEP molecules (255/256/257/300/520 fragments for one base + 1-3 dissenting); HISTORIES ON ONE MOLECULE OBJECT (constructor, growth by add_fragment / add_molecule / _add_fragment, '
                     '__finalise__ after most steps; every finalise compared with the calls from all fragments held then; '
                     'model mode 5, theorem C14_molecule_history); HISTORIES of 2-6 molecules on 2-3 contigs of different sequence called by ONE TAPS object (same '
                     'coordinates on different contigs and on the same contig again; model mode 4 = history through one '
@@ -756,7 +787,7 @@ class Prop(fw.PropBase):
                     'consensus, context letter, cov) and XM/MC/uC/sZ/sz/sX/sx/sH/sh of every read. non-trivial = at least '
                     'one z/x/h/Z/X/H call; distinct by hash of the model input',
             'histogram': dict(hist), 'letters': dict(letters),
-            'corpus_cases': self.n_corpus, 'exhaustive_small_reference_cases': self.n_exhaustive,
+            'corpus_cases': self.n_corpus, 'deep_molecules_255_to_523_fragments': self.n_deep, 'exhaustive_small_reference_cases': self.n_exhaustive,
             'exhaustive': False,
             'samples': [{'case': {k: cases[i][k] for k in ('ref', 'refkind', 'klass', 'taps_strand', 'unsafe', 'invert', 'force', 'kw', 'frags', 'contig', '_hist', '_mhist') if k in cases[i]},
                          'impl_calls': res[i].get('calls'), 'impl_tags': res[i].get('tags')}
